@@ -35,3 +35,25 @@ Theorem C05_scatter_all_static_reduction_refuted : exists data upd : list Z,
   length data = length upd /\ scatter Z.add data (seq 0 (length upd)) upd <> upd.
 Proof. exact scatter_all_static_reduction_refuted. Qed.
 Print Assumptions C05_scatter_all_static_reduction_refuted.
+
+(* ScatterAllDynamic: wherever `check` accepts (constant axis, both shapes known, same_dim(data.shape[axis], transposed.shape[0])),
+   for every runtime shape the annotations denote, ScatterND over Range(0, Shape(data)[axis]) returns `updates` *)
+Theorem C05_scatter_all_dynamic : forall (A : Type) val ds ts a (dsh tsh : list Z) n (tdata upd : list A),
+  da_check (Some ds) (Some ts) (Some a) = Fire ->
+  Forall2 (dim_denotes val) ds dsh -> Forall2 (dim_denotes val) ts tsh ->
+  py_index dsh a = Some n ->
+  hd_error tsh = Some (Z.of_nat (length tdata)) ->
+  length upd = Z.to_nat n ->
+  scatter take_update tdata (full_range n) upd = upd.
+Proof. exact scatter_all_dynamic_sound. Qed.
+Print Assumptions C05_scatter_all_dynamic.
+
+Theorem C05_scatter_all_dynamic_near_misses :
+  da_check (Some [St 2; St 3]) (Some [St 3; St 2]) (Some 0%Z) = NoFire /\
+  da_check (Some [Sy 0; St 3]) (Some [Sy 1; St 3]) (Some 0%Z) = NoFire /\
+  da_check (Some [Un; St 3]) (Some [Un; St 3]) (Some 0%Z) = NoFire /\
+  da_check (Some [St 2; St 3]) (Some [St 3; St 2]) None = NoFire /\
+  da_check None (Some [St 3; St 2]) (Some 1%Z) = NoFire /\ da_check (Some [St 2; St 3]) None (Some 1%Z) = NoFire /\
+  scatter take_update [10; 20; 30]%Z (full_range 2) [1; 2]%Z <> [1; 2]%Z.
+Proof. exact scatter_all_dynamic_near_miss. Qed.
+Print Assumptions C05_scatter_all_dynamic_near_misses.
